@@ -24,7 +24,7 @@ def run(ctx):
     for fl in (["plain", "asan"] if thorough else ["plain"]):
         b = bins[("c08_timers", fl)]
         for rep in range(3 if thorough and fl == "plain" else 1):
-            for v in range(6):
+            for v in range(10):
                 long_jobs.append(lambda b=b, v=v, rep=rep: vf.run_resumable(
                     ctx, b, ["--seed", int(ctx.seed) + 1000 * rep, "--long", 1], v, 1, timeout=400, tag=f"long{rep}"))
     jobs = long_jobs + jobs
@@ -51,6 +51,9 @@ def run(ctx):
                     "late_schedule_refused", "shutdown_stop_racing", "shutdown_drain_racing", "clock_reads_delayed", "scenarios_in_second_life_timerservice", "bursts_due_around_shutdown", "timers_with_sub_millisecond_delay",
                     "wheel_scenarios_with_dispatcher", "long_handler_scenarios", "long_timerservice_stop", "long_timerservice_stop-after-timed-out-drain", "long_timerpool_stop",
                     "long_timerservice_destructor", "long_wheel1_stop", "long_wheel1_drain-with-timeout", "long_drain_timed_out",
+                    "long_timerservice_stop-during-drain-of-another-thread", "long_timerservice_second-concurrent-stop",
+                    "long_wheel1_stop-during-drain-of-another-thread", "long_wheel_drain_firing_when_stop_called",
+                    "long_timerpool_pool-stop-during-drain-of-a-service", "long_pool_service_draining_when_pool_stop_called",
                     "long_due_on_free_thread_judged", "long_refused")
 
 
